@@ -80,7 +80,13 @@ pub async fn tcp_pair(ctx: &ctx::Ctx) -> ctx::Result<(Tcp, Tcp)> {
         metrics::MeteredStream::connect(ctx, addr),
         metrics::MeteredStream::accept(ctx, &mut listener)
     );
-    Ok((Tcp(a?), Tcp(b?)))
+    let (a, b) = (a?, b?);
+    // Close with RST instead of lingering in TIME_WAIT: the harness opens many short-lived pairs.
+    for s in [&a, &b] {
+        s.set_linger(Some(std::time::Duration::ZERO))
+            .map_err(anyhow::Error::from)?;
+    }
+    Ok((Tcp(a), Tcp(b)))
 }
 
 pub async fn tcp_connect(ctx: &ctx::Ctx, addr: std::net::SocketAddr) -> ctx::Result<Tcp> {
